@@ -18,6 +18,36 @@ CLAIMS = {
              "mailbox.push_back, order-preserving operations only, spawner always notified, await registration before a not-finished answer. "
              "They hold for every path of the code, which no test schedule can enumerate; liveness under real interleavings is not decided.",
         design="§3 C04", technique="static analysis: MIR must-pass-through / pairing / who-may-call rules (rustc_private driver + rule evaluator)"),
+    "C06": dict(
+        text="Root-write audit over the resolved MIR of the whole workspace: every mutation of a GC root (derived from the Process/SelectState ADTs) "
+             "must be paired with retain/release of the same value group on every non-error path, be a root-to-root move, insert a heap-free value, "
+             "or be one reviewed exception; plus closed writer set of the heap arrays, reclamation only at the step boundary, tracing-oracle "
+             "coverage of every root, walker sibling agreement, copy-on-transfer at worker boundaries, and the running process always returning "
+             "to the table. This decides the accounting discipline for every path at once, where tests need a leak plus a later drop on the right "
+             "schedule; byte-content preservation and schedule-dependent masking are not decided.",
+        design="§3 C06", technique="static analysis: MIR value-flow closure + path exploration (pairing/typestate of retain/release), who-may-write censuses, HIR sibling agreement"),
+    "C08": dict(
+        text="Decides the table-construction clauses behind IsType: one-to-one Value->ConcreteType tagging, each tag inserted iff "
+             "is_compatible(<its own type id>, pattern), every ProgramUpdate carrying tables recomputed by the compute_* functions from the FULL "
+             "merged program, update_program replacing them. No type test is evaluated; soundness of is_compatible is C09.",
+        design="§3 C08", technique="static analysis: HIR pattern matrices, MIR value-source slices and guarded reachability"),
+    "C13": dict(
+        text="Decides coverage/symmetry of the values_equal variant-pair table (diagonal explicit, off-diagonal false, binaries by content for all "
+             "representation pairs, tuples by canonical shape), the single minting site and advancing counter of refs, worker-id plumbing, "
+             "non-re-emission of compile-time refs, and recomputation of the canonical-shape table. Does not decide that every construction path "
+             "yields ids the canonical table reconciles.",
+        design="§3 C13", technique="static analysis: HIR pattern-matrix evaluation, MIR constructor census and value-source checks"),
+    "C14": dict(
+        text="Decides: the ownership test guards the only EffectBackend::execute call path-wise; three reviewed writers of the ownership map; "
+             "close_resource has one caller, is followed by removal and runs only for completed processes; resource_id() agrees with every effect "
+             "variant's fields; created handles are top-level completion values; transfer precedes forwarding on deliver and spawn with a recursive "
+             "walker. One recorded known finding (un-awaited termination never reaches cleanup). Event orderings across workers are not decided.",
+        design="§3 C14", technique="static analysis: MIR path exploration with edge deletion, dominance, who-may-call censuses, HIR pattern matrices"),
+    "C16": dict(
+        text="Decides the constant-space MECHANISM: the TailCall handler (and everything it reaches) pushes no frame, truncates locals before "
+             "pushing new ones on every non-error path, overwrites the top frame in place with the same locals_base; frames are pushed at three "
+             "reviewed sites; block stripping never splices a tail call out of final position. Peak sizes over N iterations are not measured.",
+        design="§3 C16", technique="static analysis: MIR path exploration, value-source checks and who-may-call census"),
 }
 
 NOT_APPLICABLE = {
